@@ -29,7 +29,7 @@ constructors.  Name resolution itself is the `Names` layer (C04/C07), C3 the `Mr
 The model follows the code as fixed by cb98646 (a superseded duplicate `'x 0'` is not visible:
 `isVisible` requires the object to be its parent's `contents` entry), aaed9bd (`taglink` renders the plain
 label when the target is not visible: `taglinkGuard`), 4b6324b (the index pages skip hidden roots), f972163 (`reparent` refreshes the linker's page), a09aa28 (`IndexPage`
-also when no root is visible), 5201211 (no root alias over a summary page), a3977d7 (none for a hidden root), fb55ab8 (undoccedSummary marker), 1da744b (`format_docstring` renders under
+also when no root is visible), 5201211 (no root alias over a summary page), a3977d7 (none for a hidden root), fb55ab8 (undoccedSummary marker), d869973 (class-private `__names` override and mask nothing), 1da744b (`format_docstring` renders under
 `switch_context(obj)`), 0ff33e4 (also the late-formatted `@see`/`@note`/`@author`/`@since` fields: row `fieldXref`), 97be2c0 (`findRootClasses` appends a root class to the list already stored under
 its name), 07382d3 (`reparent` updates `parentMod` of what is inside a moved class; `modul` is input).
 `requests s` = every `taglink` call / listing entry the page code makes; `emits s` = what is left of them
@@ -314,11 +314,16 @@ def initChildren (s : Sys) (p : Nat) : List Nat :=
 def nestedBases (s : Sys) (c : Nat) : List (List Nat) :=
   (List.range (s.ob c).mro.length).map fun i => ((s.ob c).mro.take (i+1)).reverse
 
-/-- `util.unmasked_attrs` -/
+/-- `model.is_class_private` (d869973): `__name` without trailing `__` is mangled with the class name, such
+members are unrelated across classes -/
+def isClassPrivate (nm : Name) : Bool :=
+  (nm.take 2 == ['_', '_']) && !((nm.reverse.take 2) == ['_', '_'])
+
+/-- `util.unmasked_attrs` (since d869973 a class-private name masks nothing) -/
 def unmaskedAttrs (s : Sys) : List Nat → List Nat
   | [] => []
   | b0 :: rest =>
-    let masking := rest.flatMap fun b => (s.ob b).contents.map fun o => (s.ob o).name
+    let masking := rest.flatMap fun b => ((s.ob b).contents.map fun o => (s.ob o).name).filter fun nm => !isClassPrivate nm
     (s.ob b0).contents.filter fun o => visible s o && !(masking.contains (s.ob o).name)
 
 /-- `util.class_members` -/
@@ -426,6 +431,7 @@ def valLinks (s : Sys) (page : File) (o : Nat) : List Emit :=
 
 /-- `get_override_info(cls, member_name, page_url)` -/
 def overrideInfo (s : Sys) (pf : File) (c : Nat) (nm : Name) : List Emit :=
+  if isClassPrivate nm then [] else
   (match ((s.ob c).mro.drop 1).find? (fun b => hasMember s b nm) with
     | none => []
     | some b =>
